@@ -53,11 +53,16 @@ inductive Ty where
   | map (t : Ty)
   | struct (fs : Fields)
   | unit
+  /-- `#[serde(untagged)] enum`: one alternative per variant, tried in order -/
+  | untagged (alts : TyList)
 /-- struct fields after `rename` and with `flatten`ed structs merged in;
 `hasDefault` = `#[serde(default)]`. -/
 inductive Fields where
   | nil
   | cons (name : String) (ty : Ty) (hasDefault : Bool) (rest : Fields)
+inductive TyList where
+  | nil
+  | cons (t : Ty) (rest : TyList)
 end
 
 def Ty.isOpt : Ty → Bool
@@ -68,6 +73,7 @@ def Ty.isOpt : Ty → Bool
 def Ty.isRef : Ty → Bool
   | .struct _ => true
   | .enumOf _ => true
+  | .untagged _ => true
   | _ => false
 
 def intMin (w : Width) (signed : Bool) : Int := if signed then -(2 ^ (w.bits - 1) : Int) else 0
@@ -103,10 +109,14 @@ def Ty.wf : Ty → Bool
   | .vec t => t.wf
   | .map t => t.wf
   | .struct fs => fs.wf
+  | .untagged alts => alts.wf
   | _ => true
 def Fields.wf : Fields → Bool
   | .nil => true
   | .cons _ ty _ rest => ty.wf && rest.wf
+def TyList.wf : TyList → Bool
+  | .nil => true
+  | .cons t rest => t.wf && rest.wf
 end
 
 def Fields.toList : Fields → List (String × Ty × Bool)
@@ -136,6 +146,11 @@ def nullableWrap (s : JS) : JS :=
   .obj none none none none none (.some (.some (.cons s .nil)) .none .none .none .none .none .none)
     none none .none .none none nullableExt
 
+/-- `{ "anyOf": [...] }` — what schemars derives for an untagged enum. -/
+def anyOfSchema (l : JSList) : JS :=
+  .obj none none none none none (.some .none (.some l) .none .none .none .none .none)
+    none none .none .none none []
+
 mutual
 def schemaOf : Ty → JS
   | .bool => mkTyped .boolean
@@ -151,6 +166,10 @@ def schemaOf : Ty → JS
   | .map t => mkTyped .object (ob := .some none none [] .nil .nil (.some (schemaOf t)) .none)
   | .struct fs => mkTyped .object (ob := .some none none (requiredOf fs) (propsOf fs) .nil .none .none)
   | .unit => mkTyped .null
+  | .untagged alts => anyOfSchema (schemaListOf alts)
+def schemaListOf : TyList → JSList
+  | .nil => .nil
+  | .cons t rest => .cons (schemaOf t) (schemaListOf rest)
 def propsOf : Fields → JSProps
   | .nil => .nil
   | .cons name ty _ rest => .cons name (schemaOf ty) (propsOf rest)
@@ -201,6 +220,14 @@ def decodeJson : Ty → J → Option Val
       | _ => none)
   | .struct fs, j => (match j with | .obj kvs => (decodeFields fs kvs).map .struct | _ => none)
   | .unit, j => (match j with | .null => some .unit | _ => none)
+  | .untagged alts, j => decodeAlts alts j
+/-- serde's untagged strategy: the first variant that deserialises wins. -/
+def decodeAlts : TyList → J → Option Val
+  | .nil, _ => none
+  | .cons t rest, j =>
+    match decodeJson t j with
+    | some v => some v
+    | none => decodeAlts rest j
 /-- a missing field is accepted iff it is an `Option` or has a serde default;
 unknown fields are ignored. -/
 def decodeFields : Fields → List (String × J) → Option (List (String × Val))
@@ -225,6 +252,9 @@ def formatOk : Ty → J → Bool
   | .vec t, j => (match j with | .arr xs => xs.all (formatOk t) | _ => true)
   | .map t, j => (match j with | .obj kvs => kvs.all (fun kv => formatOk t kv.2) | _ => true)
   | .struct fs, j => (match j with | .obj kvs => formatOkFields fs kvs | _ => true)
+  -- for an untagged union the side condition is per alternative: some
+  -- alternative is both valid and within its formats, i.e. decodes
+  | .untagged alts, j => (decodeAlts alts j).isSome
   | _, _ => true
 def formatOkFields : Fields → List (String × J) → Bool
   | .nil, _ => true
